@@ -599,7 +599,9 @@ def _title_format(name: str) -> str:
     """
     # Keep the suffix which de-duplication appends to repeated names, so that
     # serialised schemas parse back to the same class names.
-    name, suffix = re.fullmatch(r"(.*?)((?:_\d+)*)", name, re.DOTALL).groups()
+    name, suffix = re.fullmatch(
+        r"(.*?)((?:_[0-9]+)*)", name, re.DOTALL
+    ).groups()
     title = _title_words(name)
     if not title:
         # No usable ASCII letters: spell out the characters instead.
